@@ -405,24 +405,22 @@ func runStrace(dir, dst string, s scenario, cbFail int, injects []string) (strin
 func learn() {
 	sys = sysInfo{name: map[string]string{"open": "openat", "write": "write", "close": "close", "rename": "renameat", "unlink": "unlinkat"},
 		offset: map[string]int{}}
-	for _, cb := range []int{-1, 0} {
-		dir, dst := setup(oldSpec{kind: "absent"})
-		_, calls, e := runStrace(dir, dst, scenario{"absent", "22", "644", "wf", "10"}, cb, nil)
-		os.RemoveAll(dir)
-		if e != "" || len(calls) == 0 {
-			sys.err = "strace-unusable"
-			return
-		}
-		seen := map[string]int{}
-		for _, c := range calls {
-			if c.canon != "" {
-				if _, ok := sys.offset[c.kind]; !ok || sys.name[c.kind] != c.name {
-					sys.name[c.kind] = c.name
-					sys.offset[c.kind] = seen[c.name]
-				}
+	dir, dst := setup(oldSpec{kind: "absent"})
+	_, calls, e := runStrace(dir, dst, scenario{"absent", "22", "644", "baseline", "-"}, -1, nil)
+	os.RemoveAll(dir)
+	if e != "" || len(calls) == 0 {
+		sys.err = "strace-unusable"
+		return
+	}
+	seen := map[string]int{}
+	for _, c := range calls {
+		if c.canon != "" {
+			if _, ok := sys.offset[c.kind]; !ok {
+				sys.name[c.kind] = c.name
+				sys.offset[c.kind] = seen[c.name]
 			}
-			seen[c.name]++
 		}
+		seen[c.name]++
 	}
 	for _, k := range []string{"open", "write", "close", "rename", "unlink"} {
 		if _, ok := sys.offset[k]; !ok {
